@@ -228,12 +228,13 @@ pub fn overlap_scenario(r: &mut Report, c: &Case) {
 }
 
 /// Majority rule with scripted storing nodes: n <= 5, every split of 301 / 302 / ack.
-pub fn majority_scenario(r: &mut Report, seed: u64, fates: &[u8]) {
+/// kind: 0 put_mutable (with cas), 1 put_immutable, 2 announce_peer, 3 announce_signed_peer
+pub fn majority_scenario(r: &mut Report, seed: u64, fates: &[u8], kind: u8) {
     r.eval();
     let mut rng = Rng::new(seed);
     let w = World::with_cfg(seed, NetCfg { lat_min: MS, lat_max: 30 * MS, random_ties: true }, TraceLevel::Off);
     let n = fates.len();
-    let case = json!({"class":"majority","seed":seed.to_string(),"fates":fates});
+    let case = json!({"class":"majority","seed":seed.to_string(),"fates":fates,"kind":kind});
     let ends: Vec<([u8; 20], SocketAddrV4)> = (0..n).map(|i| (rng.array(), SocketAddrV4::new(Ipv4Addr::new(10, 7, 0, 1 + i as u8), 6881))).collect();
     let socks: Vec<SockId> = ends.iter().map(|e| w.raw(e.1)).collect();
     let index: HashMap<SockId, usize> = socks.iter().enumerate().map(|(i, s)| (*s, i)).collect();
@@ -245,7 +246,7 @@ pub fn majority_scenario(r: &mut Report, seed: u64, fates: &[u8]) {
         }
         let i = index[&sock];
         let me = ends2[i].0;
-        let bytes = if q.is_query("put") {
+        let bytes = if q.is_query("put") || q.is_query("announce_peer") || q.is_query("announce_signed_peer") {
             match fates2[i] {
                 0 => response(&q.t, B::dict(vec![("id", B::bytes(&me))]), Some(&d.from), Some(&VERSION_RS6)).encode(),
                 // every node words its error differently: only the code counts
@@ -267,7 +268,21 @@ pub fn majority_scenario(r: &mut Report, seed: u64, fates: &[u8]) {
     w.block_on(x.adht.bootstrapped(), 60 * SEC);
     let signer = SigningKey::from_bytes(&rng.array::<32>());
     let item = MutableItem::new(&signer, b"v", 3, None);
-    let rx = put_raw(&x.dht, PutRequestSpecific::PutMutable(PutMutableRequestArguments::from(item, Some(2))), None);
+    let ih = Id::from(rng.array::<20>());
+    let request = match kind {
+        0 => PutRequestSpecific::PutMutable(PutMutableRequestArguments::from(item, Some(2))),
+        1 => {
+            let v = rng.blob(3, 30);
+            PutRequestSpecific::PutImmutable(dht::verif::PutImmutableRequestArguments { target: Id::from(crate::sha1::immutable_target(&v)), v: v.into_boxed_slice() })
+        }
+        2 => PutRequestSpecific::AnnouncePeer(dht::verif::AnnouncePeerRequestArguments { info_hash: ih, port: 4000, implied_port: None }),
+        _ => {
+            let ts = w.unix_micros();
+            let sg = super::srv::sign_announce(&signer, ih.as_bytes(), ts);
+            PutRequestSpecific::AnnounceSignedPeer(dht::verif::AnnounceSignedPeerRequestArguments { info_hash: ih, t: ts, k: sg.k, sig: sg.sig })
+        }
+    };
+    let rx = put_raw(&x.dht, request, None);
     let res = w.block_on(async move { rx.recv_async().await }, 120 * SEC);
     let (acks, e301, e302) = (fates.iter().filter(|f| **f == 0).count(), fates.iter().filter(|f| **f == 1).count(), fates.iter().filter(|f| **f == 2).count());
     let half = n / 2 + 1;
@@ -279,7 +294,17 @@ pub fn majority_scenario(r: &mut Report, seed: u64, fates: &[u8]) {
         other => format!("{other:?}"),
     };
     let detail = json!({"acks": acks, "e301": e301, "e302": e302, "half": half, "result": got});
-    if e301 >= half && got != "CasFailed" {
+    if kind != 0 {
+        // immutable and announce puts never end in a concurrency error, and one ack makes them succeed
+        if got == "CasFailed" || got == "NotMostRecent" || got.contains("Concurrency") {
+            r.violation("majority/concurrency-error-for-non-mutable-put", "CasFailed / NotMostRecent produced for an immutable or announce put", case.clone(), detail.clone());
+        } else if acks >= 1 && got != "Ok" {
+            r.violation("majority/non-mutable-put-failed-despite-ack", "an immutable or announce put failed although an acknowledgement was delivered", case.clone(), detail.clone());
+        } else if acks == 0 && got == "Ok" {
+            r.violation("majority/non-mutable-put-ok-without-ack", "an immutable or announce put returned Ok without any acknowledgement", case.clone(), detail.clone());
+        }
+        r.count("majority_splits_non_mutable");
+    } else if e301 >= half && got != "CasFailed" {
         r.violation("majority/301-majority-not-cas-failed", "a majority of the storing nodes answered 301 but the put did not fail with CasFailed", case.clone(), detail.clone());
     } else if e302 >= half && got != "NotMostRecent" {
         r.violation("majority/302-majority-not-not-most-recent", "a majority of the storing nodes answered 302 but the put did not fail with NotMostRecent", case.clone(), detail.clone());
@@ -304,7 +329,8 @@ pub fn run(a: &Args) -> Report {
         let seed = c["seed"].as_str().and_then(|s| s.parse().ok()).unwrap_or(1);
         if c["class"] == "majority" {
             let fates: Vec<u8> = c["fates"].as_array().map(|l| l.iter().map(|x| x.as_u64().unwrap_or(0) as u8).collect()).unwrap_or_default();
-            super::guarded(&mut r, c.clone(), |r| majority_scenario(r, seed, &fates));
+            let kind = c["kind"].as_u64().unwrap_or(0) as u8;
+            super::guarded(&mut r, c.clone(), |r| majority_scenario(r, seed, &fates, kind));
         } else {
             let phase = PHASES.iter().find(|p| format!("{p:?}") == c["phase"].as_str().unwrap_or("")).copied().unwrap_or(Phase::SameTick);
             let rel = Rel { same_item: c["rel"]["same_item"].as_bool().unwrap_or(false), seq: c["rel"]["seq"].as_i64().unwrap_or(0) as i8, cas: c["rel"]["cas"].as_u64().unwrap_or(0) as u8, target: c["rel"]["target"].as_u64().unwrap_or(0) as u8 };
@@ -349,7 +375,11 @@ pub fn run(a: &Args) -> Report {
             let mut x = assignment;
             let fates: Vec<u8> = (0..n).map(|_| { let f = (x % 3) as u8; x /= 3; f }).collect();
             let seed = mix(a.seed, 0x3a70 + code);
-            super::guarded(&mut r, json!({"class":"majority","seed":seed.to_string(),"fates":fates}), |r| majority_scenario(r, seed, &fates));
+            super::guarded(&mut r, json!({"class":"majority","seed":seed.to_string(),"fates":fates,"kind":0}), |r| majority_scenario(r, seed, &fates, 0));
+            // the same split for one of the three non-mutable kinds
+            let kind = 1 + (code % 3) as u8;
+            let seed2 = mix(seed, kind as u64);
+            super::guarded(&mut r, json!({"class":"majority","seed":seed2.to_string(),"fates":fates,"kind":kind}), |r| majority_scenario(r, seed2, &fates, kind));
         }
     }
     r
